@@ -97,3 +97,70 @@ def rtOf (s : Schema) : Nat → Bool → LtType → V → V → Option V
     | k, v => rtRest s (rtOf s fuel) om ty k cur v
 
 end TrackVerif.LT
+
+namespace TrackVerif.LT
+open TrackVerif TrackVerif.Gen
+
+/-! ### when the decoded value prints the same document again -/
+
+/-- `cur` is what a fresh destination of type `ty` holds (down to the leaves) -/
+def isZero (s : Schema) : Nat → LtType → V → Bool
+  | 0, _, _ => false
+  | fuel + 1, ty, v =>
+    match kindOf s 8 ty, v with
+    | .int, .int i => i == 0
+    | .float, .flt b => b == 0
+    | .string, .str t => t.isEmpty
+    | .bool, .bool b => !b
+    | .time, .time _ _ => true
+    | .ptr _, .nil => true
+    | .slice _, .list xs => xs.isEmpty
+    | .structT n, .struct cs =>
+      (match s.fieldsOf n with
+       | some fields =>
+         (dataFields fields).length == cs.length &&
+           ((dataFields fields).zip cs).all fun p => isZero s fuel p.1.typ p.2
+       | none => false)
+    | _, _ => false
+
+/-- one leaf: the decoded value prints the same text, and `omitempty` treats it the same way -/
+def leafStable (s : Schema) (om : Bool) (ty : LtType) (cur v : V) : Bool :=
+  match leafRT s ty cur v with
+  | none => true
+  | some q => decide (leafText s ty q = leafText s ty v) && !(om && isEmptyValue (kindOf s 8 ty) q)
+
+def fieldStable (s : Schema) (recur : Bool → LtType → V → V → Bool) (p : LtField × V × V) : Bool :=
+  if p.1.attr then leafStable s false p.1.typ p.2.1 p.2.2
+  else recur p.1.omitempty p.1.typ p.2.1 p.2.2
+
+def stableRest (s : Schema) (rt : Bool → LtType → V → V → Option V) (recur : Bool → LtType → V → V → Bool)
+    (om : Bool) (ty : LtType) (k : Kind) (cur v : V) : Bool :=
+  match customM s ty with
+  | some _ => leafStable s om ty cur v
+  | none =>
+    match k, v with
+    | .slice t', .list vs =>
+      vs.all fun e => recur false t' (zeroOf s 8 t') e &&
+        (match rt false t' (zeroOf s 8 t') e with
+         | some q => !(om && isEmptyValue (kindOf s 8 t') q)
+         | none => true)
+    | .structT n, .struct fs =>
+      (match s.fieldsOf n, cur with
+       | some fields, .struct cs => ((dataFields fields).zip (cs.zip fs)).all (fieldStable s recur)
+       | _, _ => true)
+    | _, _ => leafStable s om ty cur v
+
+/-- every leaf of `v` is stable and every destination on the way is fresh: then (theorem
+    `reencode_stable`) the decoded value is marshalled to the same trees as `v` -/
+def stableOf (s : Schema) : Nat → Bool → LtType → V → V → Bool
+  | 0, _, _, _, _ => false
+  | fuel + 1, om, ty, cur, v =>
+    isZero s 8 ty cur &&
+    (if om && isEmptyValue (kindOf s 8 ty) v then true
+     else match kindOf s 8 ty, v with
+     | .ptr _, .nil => true
+     | .ptr t', .ptr v' => stableOf s fuel false t' (ptrTarget s t' cur) v'
+     | .ptr _, _ => true
+     | k, v => stableRest s (rtOf s fuel) (stableOf s fuel) om ty k cur v)
+
+end TrackVerif.LT
